@@ -60,9 +60,9 @@ type SummaryConfig struct {
 // Summary generates summary
 func Summary(logStream, dbStream io.Reader, sc SummaryConfig) error {
 	return utils.WithResolvedDatabase(dbStream, sc.ParserConfig, sc.ResolverConfig,
-		func(nl shared.DBNodeMap) error {
+		func(nl shared.DBNodeMap) (err error) {
 			r := NewSummaryReporterTemplate(sc.ReporterConfig, nl)
-			defer r.Flush()
+			defer utils.FlushOnExit(r, &err)
 			f := filter.GetIntervalNodeFilter(sc.FilterConfig)
 			return utils.WalkNodesInStream(logStream, sc.DateFormat, sc.ParserConfig, f, r)
 		})
